@@ -137,7 +137,7 @@ def has_symmetric_extension(
     # this indicates that there does not exist a symmetric extension at
     # level :code:`level`.
     return not np.isclose(
-        (1 - min(symmetric_extension_hierarchy([rho], probs=None, level=level), 1)),
+        (1 - min(symmetric_extension_hierarchy([rho], probs=None, dim=[dim_x, dim_y], level=level), 1)),
         0,
         atol=tol,
     )
